@@ -3,6 +3,7 @@
 mod explore;
 mod props;
 mod report;
+mod util;
 
 use serde_json::{json, Value};
 use std::time::Instant;
